@@ -143,7 +143,8 @@ func (c *CFG) Exits(returnsOnly bool) []Loc {
 			continue
 		}
 		if len(b.Nodes) == 0 {
-			out = append(out, Loc{b, -1})
+			// the fall-off block after the last case of a select without default: go/cfg
+			// leaves it without successors; control never gets there (the select blocks)
 			continue
 		}
 		last := b.Nodes[len(b.Nodes)-1]
